@@ -1146,6 +1146,8 @@ def from_wire_parser(parser: dns.wirebase.Parser) -> Name:
 
     labels = []
     biggest_pointer = parser.current
+    # Where the name ends in place: just after its first pointer, or after its root label.
+    end = None
     with parser.restore_furthest():
         count = parser.get_uint8()
         while count != 0:
@@ -1153,6 +1155,8 @@ def from_wire_parser(parser: dns.wirebase.Parser) -> Name:
                 labels.append(parser.get_bytes(count))
             elif count >= 192:
                 current = (count & 0x3F) * 256 + parser.get_uint8()
+                if end is None:
+                    end = parser.current
                 if current >= biggest_pointer:
                     raise BadPointer
                 biggest_pointer = current
@@ -1160,7 +1164,12 @@ def from_wire_parser(parser: dns.wirebase.Parser) -> Name:
             else:
                 raise BadLabelType
             count = parser.get_uint8()
+        if end is None:
+            end = parser.current
         labels.append(b"")
+    # The furthest octet read is not the end of the name when a pointer leads to a label
+    # that extends beyond the pointer itself.
+    parser.seek(end)
     return Name(labels)
 
 
